@@ -48,10 +48,11 @@ type Report struct {
 	Extra   map[string]interface{}
 	start   time.Time
 	verifDir string
+	outDir   string
 }
 
 func newReport(prop, tier string, seed int64, verifDir string) *Report {
-	return &Report{Prop: prop, Tier: tier, Seed: seed, Funcs: map[string]bool{}, Extra: map[string]interface{}{}, start: time.Now(), verifDir: verifDir}
+	return &Report{Prop: prop, Tier: tier, Seed: seed, Funcs: map[string]bool{}, Extra: map[string]interface{}{}, start: time.Now(), verifDir: verifDir, outDir: verifDir + "/evidence"}
 }
 
 // Begin starts a rule; floor is the minimum number of sites the rule must match.
@@ -180,7 +181,7 @@ func (r *Report) Finish(explanation string, assumptions []string, notCovered str
 	for _, n := range r.Notes {
 		fmt.Printf("   note: %s\n", n)
 	}
-	vdir := filepath.Join(r.verifDir, "evidence", r.Prop+".violations")
+	vdir := filepath.Join(r.outDir, r.Prop+".violations")
 	os.RemoveAll(vdir)
 	nviol, nknown, nok := 0, 0, 0
 	for _, o := range r.Obls {
@@ -268,8 +269,8 @@ func (r *Report) Finish(explanation string, assumptions []string, notCovered str
 		"violations":  nviol,
 	}
 	b, _ := json.MarshalIndent(ev, "", " ")
-	os.MkdirAll(filepath.Join(r.verifDir, "evidence"), 0o755)
-	if err := os.WriteFile(filepath.Join(r.verifDir, "evidence", r.Prop+".json"), b, 0o644); err != nil {
+	os.MkdirAll(r.outDir, 0o755)
+	if err := os.WriteFile(filepath.Join(r.outDir, r.Prop+".json"), b, 0o644); err != nil {
 		fmt.Printf("cannot write evidence: %v\n", err)
 		return 2
 	}
